@@ -24,18 +24,38 @@ type c11Plan struct {
 	cap   *crash.Captured
 	k     int
 	shift time.Duration
+	// mixed: every object is older than the maximum except one PRNG-chosen object, which is `shift` old
+	mixed   bool
+	keepSel int
 }
 
 type stateGetter interface{ GetState() *workflow.State }
 
 // shiftPlan moves every non-zero state time of the stored plan into the past through the vault's own Update* calls.
-func shiftPlan(ctx context.Context, rs *crash.Restored, id uuid.UUID, d time.Duration) error {
+// With keepSel >= 0 one object (the keepSel-th, modulo their number, of the objects that carry a time at all) is moved
+// by keepD instead: the plan's most recent recorded activity is then that one object's, wherever it sits in the walk.
+func shiftPlan(ctx context.Context, rs *crash.Restored, id uuid.UUID, d time.Duration, keepSel int, keepD time.Duration) error {
 	p, err := rs.Vault.Read(ctx, id)
 	if err != nil {
 		return err
 	}
+	timed := 0
 	for it := range walk.Plan(p) {
 		st := it.Value.(stateGetter).GetState()
+		if !st.Start.IsZero() || !st.End.IsZero() {
+			timed++
+		}
+	}
+	n := -1
+	for it := range walk.Plan(p) {
+		st := it.Value.(stateGetter).GetState()
+		d := d
+		if !st.Start.IsZero() || !st.End.IsZero() {
+			n++
+			if keepSel >= 0 && timed > 0 && n == keepSel%timed {
+				d = keepD
+			}
+		}
 		if !st.Start.IsZero() {
 			st.Start = st.Start.Add(-d)
 		}
@@ -143,6 +163,9 @@ func c11Run(c *Ctx, idx int) CaseResult {
 				if pl.shift < 0 {
 					pl.shift = 0
 				}
+				if r.Intn(2) == 0 {
+					pl.mixed, pl.keepSel = true, r.Intn(1000)
+				}
 			}
 		}
 		plans = append(plans, pl)
@@ -160,8 +183,16 @@ func c11Run(c *Ctx, idx int) CaseResult {
 	before := map[string]*spec.PlanView{}
 	for i := range plans {
 		pl := &plans[i]
-		if pl.shift > 0 {
-			if err := shiftPlan(ctx, rs, pl.cap.ID, pl.shift); err != nil {
+		if pl.mixed {
+			// "most recent recorded activity" is a maximum over all objects: one recent object keeps the plan alive
+			if err := shiftPlan(ctx, rs, pl.cap.ID, cf.d+10*time.Minute, pl.keepSel, pl.shift); err != nil {
+				res.Verdict = "inconclusive"
+				res.Note = "shift: " + err.Error()
+				return res
+			}
+			res.Counters["fresh_mixed_age"]++
+		} else if pl.shift > 0 {
+			if err := shiftPlan(ctx, rs, pl.cap.ID, pl.shift, -1, 0); err != nil {
 				res.Verdict = "inconclusive"
 				res.Note = "shift: " + err.Error()
 				return res
@@ -224,7 +255,7 @@ func c11Run(c *Ctx, idx int) CaseResult {
 			}
 			add("fresh-running-not-terminal", fmt.Sprint(st), "a Running plan with recent activity ended %v (max %s, age %v)", st, cf.name, pl.shift)
 		} else if p.Reason == workflow.FRExceedRecovery {
-			add("fresh-running-aged-out", cf.name, "a Running plan whose last activity is %v old was closed as ExceedRecovery although the maximum is %s", pl.shift, cf.name)
+			add("fresh-running-aged-out", cf.name+map[bool]string{true: ",one-recent-object", false: ""}[pl.mixed], "a Running plan whose last activity is %v old was closed as ExceedRecovery although the maximum is %s (mixed ages: %v)", pl.shift, cf.name, pl.mixed)
 		}
 		res.Counters["fresh_resumed"]++
 	}
@@ -316,7 +347,7 @@ func c11Run(c *Ctx, idx int) CaseResult {
 func init() {
 	register(&Prop{
 		ID: "C11", Level: "exploration", Batch: 4, PerCaseTimeout: 120 * time.Second,
-		Rule:          "case i = one store with 3-8 plans (every third store stale-heavy: several stale Running plans adjacent in search order): never started, Completed, Failed, Running with recent activity (a reachable write-prefix state), Running with every state time shifted into the past by {max+1min, 10*max} through the vault's Update* calls; configuration i mod 4 in {WithMaxLastUpdate(1 min), default 30 min, 2 h, WithNoRecovery}; fresh ages {0, max-1min}; a recording vault and the scripted plugins observe writes and invocations per plan; distinct by (configuration, per-plan class/prefix/age)",
+		Rule:          "case i = one store with 3-8 plans (every third store stale-heavy: several stale Running plans adjacent in search order): never started, Completed, Failed, Running with recent activity (a reachable write-prefix state), Running with every state time shifted into the past by {max+1min, 10*max} through the vault's Update* calls; configuration i mod 4 in {WithMaxLastUpdate(1 min), default 30 min, 2 h, WithNoRecovery}; fresh ages {0, max-1min}, in half of the fresh plans every object is max+10min old except one PRNG-chosen object (anywhere in the walk) that carries the fresh age; a recording vault and the scripted plugins observe writes and invocations per plan; distinct by (configuration, per-plan class/prefix/age)",
 		Cases:         nCases(48, 1200),
 		Run:           c11Run,
 		RaceAttr:      raceHas("execute.(*recover)", "execute.runningToFailed", "execute.lastUpdate"),
